@@ -73,6 +73,13 @@ func rpkPad(r *Rng, o *Out) {
 	for i := 0; i < n; i++ {
 		nv := r.Pick(0, 1, 2, 3, 4, 8, 13, 32, r.Range(1, 120))
 		b := rpkPacket(r, uint32(r.Range(0, 1000)), nv).Bytes()
+		switch r.Intn(8) {
+		case 0: // a structured datagram of the decoder check: declared lengths the decoder does not consume
+			// entirely (no format, odd payload, ...), so the padding is computed from a length nobody read
+			b, _, _, _ = c15Structured(r, "quick")
+		case 1:
+			b = c15Malformed(r, "quick")
+		}
 		pad := (stride - len(b)%stride) % stride
 		switch r.Intn(12) {
 		case 0:
